@@ -21,7 +21,7 @@ from fractions import Fraction
 from typing import Any, Dict, List, Optional, Tuple
 
 from engine.srcmatch import U
-from engine.mathobj import NOTIMPL, SLOTS, Dispatcher, Obj, ang_input, from_angle_entries, mat_input, vec_input
+from engine.mathobj import NOTIMPL, SLOTS, Dispatcher, NeedAssume, Obj, ang_input, from_angle_entries, mat_input, vec_input
 from engine.model import AnalysisError, Program, dotted, resolve_method
 from engine.poly import Opaque, Poly, PolyInterp, normal_form
 from engine.pyx import PyxFile, pyx_body_to_ast
@@ -398,31 +398,80 @@ def run(ctx: Any, prog: Program) -> None:
     pairs = [(l, r) for l in vec_classes for r in ang_classes + mat_classes] + \
             [(l, r) for l in ang_classes for r in ang_classes + mat_classes] + \
             [(l, r) for l in mat_classes for r in mat_classes + ang_classes]
+    def concretise(pl: Poly, assume: Dict[Tuple[str, str], bool]) -> Poly:
+        """an arm that works on the angle's components directly is compared with from_angle *as written* (A1 ties that to the convention):
+        FA[angle]_xy -> the from_angle polynomial in this angle's own sin/cos; components the path assumed zero get sin 0, cos 1"""
+        mp: Dict[str, Poly] = {}
+        rel: Dict[str, Poly] = {}
+        for nm in ('L', 'R'):
+            key = repr(('angle', nm))
+            ren = {f'{t}{ax}': Poly.sym(f'{t}{ax}[{key}]') for t in 'cs' for ax in 'PYR'}
+            for s_ in SLOTS:
+                mp[f'FA[{key}]_{s_}'] = FA[s_].subst(ren)
+            for ax in 'PYR':
+                rel[f's{ax}[{key}]'] = Poly.const(1) - Poly.sym(f'c{ax}[{key}]') ** 2
+        pl = pl.subst(mp)
+        zero: Dict[str, Poly] = {}
+        for (key, ax), z in assume.items():
+            if z:
+                zero[f's{ax}[{key}]'] = Poly.const(0)
+                zero[f'c{ax}[{key}]'] = Poly.const(1)
+        return normal_form(pl.subst(zero), rel)
+
+    def same_value(kind: str, res: Obj, want: Any, want_polys: Any, assume: Dict[Tuple[str, str], bool], trig: bool) -> bool:
+        if not assume and not trig:
+            return repr(res.data) == repr(want)
+        if kind == 'vec':
+            got_p, want_p = list(res.data), list(want_polys)
+        elif kind == 'mat':
+            got_p, want_p = [res.data[s_] for s_ in SLOTS], [want_polys[s_] for s_ in SLOTS]
+        else:
+            m_ = getattr(res, 'mat', None)
+            if m_ is None:
+                return False
+            got_p, want_p = [m_[s_] for s_ in SLOTS], [want_polys[s_] for s_ in SLOTS]
+        return all(isinstance(g, Poly) and concretise(g, assume) == concretise(w, assume) for g, w in zip(got_p, want_p))
+
+    n_forked = 0
     for lc, rc in pairs:
         for inplace in (False, True):
             if inplace and lc == 'tuple':
                 continue
-            L, R = mk(lc, 'L'), mk(rc, 'R')
-            L0 = repr(L.data)
-            R0 = repr(R.data)
-            kind, want = expected(lc, rc, L, R)
             opname = '@=' if inplace else '@'
-            label = f'{lc} {opname} {rc}'
             anchor = resolve_method(mt, lc if lc != 'tuple' else rc, '__matmul__' if lc != 'tuple' else '__rmatmul__')
             anode = anchor[1] if anchor else mt.tree
-            res, tried = disp.binop(L, R, inplace)
-            if res is NOTIMPL or not isinstance(res, Obj):
-                ctx.check('C04.A4', False, mt, anode, f'{label}: no arm handles this documented operand pair (tried {tried})', text=label, func='operator dispatch')
-                continue
-            ok_val = (res.kind == kind or (kind == 'vec' and res.kind == 'vec')) and repr(res.data) == repr(want)
-            ctx.check('C04.A4', ok_val, mt, anode, f'{label}: result value {res.data!r} differs from the documented {want!r} (via {tried})',
-                      text=label + ' value', func='operator dispatch')
-            want_cls = {'tuple': 'Vec'}.get(lc, lc)
-            ctx.check('C04.A4', res.cls == want_cls, mt, anode, f'{label}: result class {res.cls}, documented {want_cls} (via {tried})',
-                      text=label + ' class', func='operator dispatch')
-            # the right operand is never changed
-            ctx.check('C04.A4', repr(R.data) == R0 and not R.mutations, mt, anode, f'{label}: right operand mutated ({R.mutations})',
-                      text=label + ' right operand intact', func='operator dispatch')
+            todo: List[Dict[Tuple[str, str], bool]] = [{}]
+            while todo:
+                assume = todo.pop()
+                if len(assume) > 6:
+                    raise AnalysisError(f'{lc} {opname} {rc}: more than 6 value tests on angle components along one path')
+                L, R = mk(lc, 'L'), mk(rc, 'R')
+                L0 = repr(L.data)
+                R0 = repr(R.data)
+                kind, want = expected(lc, rc, L, R)
+                want_polys = want if kind != 'ang' else mat_product(std, from_angle_entries(L) if L.kind == 'ang' else L.data, R.data if R.kind == 'mat' else from_angle_entries(R))
+                disp.assume, disp.used_trig = assume, False
+                try:
+                    res, tried = disp.binop(L, R, inplace)
+                except NeedAssume as na:
+                    n_forked += 1
+                    todo += [{**assume, na.key: True}, {**assume, na.key: False}]
+                    continue
+                when = ''.join(f' [{"L" if "L" in k[0] else "R"}.{ {"P": "pitch", "Y": "yaw", "R": "roll"}[k[1]] } {"==" if z else "!="} 0]' for k, z in sorted(assume.items()))
+                label = f'{lc} {opname} {rc}{when}'
+                if res is NOTIMPL or not isinstance(res, Obj):
+                    ctx.check('C04.A4', False, mt, anode, f'{label}: no arm handles this documented operand pair (tried {tried})', text=label, func='operator dispatch')
+                    continue
+                ok_val = (res.kind == kind or (kind == 'vec' and res.kind == 'vec')) and same_value(kind, res, want, want_polys, assume, disp.used_trig)
+                ctx.check('C04.A4', ok_val, mt, anode, f'{label}: result value {str(res.data)[:260]}... differs from the documented {str(want)[:200]}... (via {tried})',
+                          text=label + ' value', func='operator dispatch')
+                want_cls = {'tuple': 'Vec'}.get(lc, lc)
+                ctx.check('C04.A4', res.cls == want_cls, mt, anode, f'{label}: result class {res.cls}, documented {want_cls} (via {tried})',
+                          text=label + ' class', func='operator dispatch')
+                # the right operand is never changed
+                ctx.check('C04.A4', repr(R.data) == R0 and not R.mutations, mt, anode, f'{label}: right operand mutated ({R.mutations})',
+                          text=label + ' right operand intact', func='operator dispatch')
+    disp.assume, disp.used_trig = {}, False
     # unknown operands give NotImplemented
     for lc in ['Vec', 'Angle', 'Matrix']:
         L = mk(lc, 'L')
@@ -809,8 +858,15 @@ def a7_alias_safety(ctx: Any, prog: Program, mt: Any, pyx: Any) -> None:
             n_ip += 1
             me = fn.args.args[0].arg
             hz2 = _stale_self_read(fn, me)
-            ctx.check('C04.A7', hz2 is None, mt, hz2[2] if hz2 else fn, (f'{qual} assigns {me}.{hz2[1]} and then reads it again while computing {me}.{hz2[0]}: an in-place operator must compute every component '
-                      'from the values the object had before the operation (x @= A would differ from x @ A)') if hz2 else 'components computed from the old values', func=qual, text=f'{qual}: no stale component read')
+            if name == '__imatmul__':
+                # the value of every `@=` form is decided exactly by A4 (a staged algorithm - roll, then pitch, then yaw applied in place - reads
+                # updated components on purpose); only recorded here
+                ctx.check('C04.A7', True, mt, fn, 'value decided by C04.A4', func=qual, text=f'{qual}: staged or single-step update (value decided by A4)')
+                continue
+            # other in-place operators are not evaluated by A4: a component computed from an already updated one may be a staged algorithm or a
+            # slip - not decided from the shape alone
+            ctx.shape('C04.A7', hz2 is None, mt, hz2[2] if hz2 else fn, (f'{qual} assigns {me}.{hz2[1]} and then reads it again while computing {me}.{hz2[0]}: whether the operator still computes every component '
+                      'from the values the object had before the operation is not decided here') if hz2 else 'components computed from the old values', func=qual, text=f'{qual}: no stale component read')
     if n_ip < 3:
         raise AnalysisError(f'A7: only {n_ip} in-place operator methods found in math.py')
     for k in ('MatrixBase._mat_mul', 'MatrixBase._vec_rot'):
@@ -935,6 +991,8 @@ def analyse_to_angle(ctx: Any, rule: str, relpath: str, qual: str, body: List[as
 
 
 MUTANTS = [
+    {'id': 'imatmul_staged_pitch_backwards', 'file': 'math.py', 'find': '            self._mat_mul(Py_Matrix.from_angle(other))\n', 'replace': '            if other._roll != 0.0:\n                rad = math.radians(other._roll)\n                cos, sin = math.cos(rad), math.sin(rad)\n                self._ab, self._ac = self._ab * cos - self._ac * sin, self._ab * sin + self._ac * cos\n                self._bb, self._bc = self._bb * cos - self._bc * sin, self._bb * sin + self._bc * cos\n                self._cb, self._cc = self._cb * cos - self._cc * sin, self._cb * sin + self._cc * cos\n            if other._pitch != 0.0:\n                rad = math.radians(other._pitch)\n                cos, sin = math.cos(rad), math.sin(rad)\n                self._aa, self._ac = self._aa * cos - self._ac * sin, self._aa * sin + self._ac * cos\n                self._ba, self._bc = self._ba * cos - self._bc * sin, self._ba * sin + self._bc * cos\n                self._ca, self._cc = self._ca * cos - self._cc * sin, self._ca * sin + self._cc * cos\n            if other._yaw != 0.0:\n                rad = math.radians(other._yaw)\n                cos, sin = math.cos(rad), math.sin(rad)\n                self._aa, self._ab = self._aa * cos - self._ab * sin, self._aa * sin + self._ab * cos\n                self._ba, self._bb = self._ba * cos - self._bb * sin, self._ba * sin + self._bb * cos\n                self._ca, self._cb = self._ca * cos - self._cb * sin, self._ca * sin + self._cb * cos\n', 'expect': 'C04.A4'},
+    {'id': 'ok_imatmul_staged_in_place', 'file': 'math.py', 'find': '            self._mat_mul(Py_Matrix.from_angle(other))\n', 'replace': '            if other._roll != 0.0:\n                rad = math.radians(other._roll)\n                cos, sin = math.cos(rad), math.sin(rad)\n                self._ab, self._ac = self._ab * cos - self._ac * sin, self._ab * sin + self._ac * cos\n                self._bb, self._bc = self._bb * cos - self._bc * sin, self._bb * sin + self._bc * cos\n                self._cb, self._cc = self._cb * cos - self._cc * sin, self._cb * sin + self._cc * cos\n            if other._pitch != 0.0:\n                rad = math.radians(other._pitch)\n                cos, sin = math.cos(rad), math.sin(rad)\n                self._ac, self._aa = self._ac * cos - self._aa * sin, self._ac * sin + self._aa * cos\n                self._bc, self._ba = self._bc * cos - self._ba * sin, self._bc * sin + self._ba * cos\n                self._cc, self._ca = self._cc * cos - self._ca * sin, self._cc * sin + self._ca * cos\n            if other._yaw != 0.0:\n                rad = math.radians(other._yaw)\n                cos, sin = math.cos(rad), math.sin(rad)\n                self._aa, self._ab = self._aa * cos - self._ab * sin, self._aa * sin + self._ab * cos\n                self._ba, self._bb = self._ba * cos - self._bb * sin, self._ba * sin + self._bb * cos\n                self._ca, self._cb = self._ca * cos - self._cb * sin, self._ca * sin + self._cb * cos\n', 'expect': None},
     {'id': 'ok_angle_matrix_shared_helper', 'file': 'math.py', 'find': "    def __matmul__(self, other: 'MatrixBase | AngleBase') -> Self:\n        if isinstance(other, MatrixBase):\n            rot = other", 'replace': "    def _ang_rot(self, source: 'AngleBase', dest: AngleT) -> AngleT:\n        mat = Py_Matrix.from_angle(source)\n        mat._mat_mul(self)\n        return mat._to_angle(dest)\n\n    def __matmul__(self, other: 'MatrixBase | AngleBase') -> Self:\n        if isinstance(other, MatrixBase):\n            rot = other", 'extra': [{'file': 'math.py', 'find': "        elif isinstance(other, MatrixBase):\n            mat = Py_Matrix.from_angle(self)\n            mat._mat_mul(other)\n            cls = type(self)\n            return mat._to_angle(cls.__new__(cls))", 'replace': "        elif isinstance(other, MatrixBase):\n            cls = type(self)\n            return other._ang_rot(self, cls.__new__(cls))"}], 'expect': None},
     {'id': 'elimination_breaks_on_zero', 'file': 'math.py', 'find': "            for m in range(n+1, 3):\n                # Get the multiplier\n", 'replace': "            for m in range(n+1, 3):\n                if mat_l[m][n] == 0.0:\n                    break\n                # Get the multiplier\n", 'expect': 'C04.A11'},
     {'id': 'ok_elimination_continues_on_zero', 'file': 'math.py', 'find': "            for m in range(n+1, 3):\n                # Get the multiplier\n", 'replace': "            for m in range(n+1, 3):\n                if mat_l[m][n] == 0.0:\n                    continue\n                # Get the multiplier\n", 'expect': None},
